@@ -1,7 +1,7 @@
-import SafeC.Proofs.CopyAll
+import SafeC.Proofs.CatAll
 import SafeC.Props.C07Ext
 /-!
-# C07 — `strcpy_s strncpy_s wcscpy_s wcsncpy_s`: ESOVRLP exactly when the cells copied meet
+# C07 — `strcpy_s strncpy_s strcat_s strncat_s` and the wide twins: ESOVRLP exactly when the cells copied meet
 
 Setting of `Props/C06Copy.lean` (every cell mapped and readable, ARBITRARY contents, dest writable, usable sizes, `cfg`
 arbitrary, the source at ANY address).  `m` = number of characters the call would copy.
@@ -13,6 +13,11 @@ arbitrary, the source at ANY address).  `m` = number of characters the call woul
   `src + m`, is NOT read; operands that are disjoint as objects (the `dmax` cells of dest / the source cells read) are
   rejected EXACTLY when `slen = m`, `src + m = dest` and `m < dmax` (`*_iff`): the listed deviation
   `bounded-copy-src-ends-at-dest`, as `_partial` + `_witness`.
+* the concatenations (second half): dest holds a string of length `dl`; ESOVRLP EXACTLY when `src` lies inside the dest
+  string (terminator included: met by the scan, `findEnd_hits`, or at the first test of the copy loop) or the
+  `c = min(m + 1, dmax - dl)` cells appended and the `c` source cells meet (`CatC07`); the same `_iff` / `_partial` /
+  `_witness` for the bounded ones; `*_C07_unterm`: dest without a NUL in `dmax` cells — ESOVRLP exactly when the scan runs
+  into `src` (`dest < src < dest + dmax`), else ESUNTERM, dest cleared either way.
 -/
 namespace SafeC.Props.C07
 open SafeC Gen
@@ -244,5 +249,311 @@ example : (∀ a, endSt.mapped a = true ∧ endSt.rd a = true) ∧ RW endSt 106 
 
 /-- non-vacuity of the `_exact` theorems: source "x" at 104, dest = the 2 cells at 105 (the terminator read is dest[0]) — ESOVRLP -/
 example : retCode (exec (strcpy_s {} 105 2 104 none) endSt) = some ESOVRLP := by decide
+
+/-! ## the concatenations -/
+
+/-- the conclusion shared by the four concatenations: `dl` = old length of dest, `m` characters appended -/
+def CatC07 (cfg : Cfg) (dest dmax dl src m : Nat) (st st' : St) (code : Nat) : Prop :=
+  (code = ESOVRLP ↔ ¬ (dest + dl + min (m+1) (dmax - dl) ≤ src ∨ src + min (m+1) (dmax - dl) ≤ dest)) ∧
+  (code = ESOVRLP → OvrlpPost cfg dest dmax st st')
+
+/-- … and, for the bounded ones, the behaviour on operands that are disjoint as objects -/
+def NcatC07 (cfg : Cfg) (dest dmax dl src slen m : Nat) (st st' : St) (code : Nat) : Prop :=
+  CatC07 cfg dest dmax dl src m st st' code ∧
+  ((dest + dmax ≤ src ∨ (m < slen ∧ src + m + 1 ≤ dest) ∨ (slen = m ∧ src + m ≤ dest)) →
+    (code = ESOVRLP ↔ slen = m ∧ src + m = dest ∧ dl + m < dmax))
+
+private theorem cat_ovrlp_iff {cfg : Cfg} {dest dmax dl src m : Nat} {st st' : St} {code : Nat}
+    (hdl : dl < dmax) (h : CatAll cfg dest dmax dl src m st st' code) :
+    code = ESOVRLP ↔ ((dest < src ∧ src ≤ dest + dl) ∨ (dest + dl < src ∧ src ≤ dest + dl + m ∧ src < dest + dmax) ∨
+      (src ≤ dest ∧ dest ≤ src + m ∧ dest + dl < src + dmax)) := by
+  by_cases hA : (dest < src ∧ src ≤ dest + dl) ∨ (dest + dl < src ∧ src ≤ dest + dl + m ∧ src < dest + dmax) ∨
+      (src ≤ dest ∧ dest ≤ src + m ∧ dest + dl < src + dmax)
+  · exact ⟨fun _ => hA, fun _ => (h.hit hA).1⟩
+  by_cases hB : dl + m < dmax
+  · rw [(h.done hB (by omega)).1]
+    exact ⟨fun hc => absurd (show EOK = ESOVRLP from hc) (by decide), fun hc => absurd hc hA⟩
+  · rw [(h.full (by omega) (by omega)).1]
+    exact ⟨fun hc => absurd hc (by decide), fun hc => absurd hc hA⟩
+
+private theorem catC07_of_all {cfg : Cfg} {dest dmax dl src m : Nat} {st st' : St} {code : Nat}
+    (hdl : dl < dmax) (h : CatAll cfg dest dmax dl src m st st' code) : CatC07 cfg dest dmax dl src m st st' code := by
+  have hiff := cat_ovrlp_iff hdl h
+  refine ⟨⟨fun hc => by have := hiff.1 hc; omega, fun hh => hiff.2 (by omega)⟩, fun hc => ?_⟩
+  exact (h.hit (hiff.1 hc)).2.ovrlp
+
+private theorem ncatC07_of_all {cfg : Cfg} {dest dmax dl src slen m : Nat} {st st' : St} {code : Nat}
+    (hdl : dl < dmax) (h : CatAll cfg dest dmax dl src m st st' code) :
+    NcatC07 cfg dest dmax dl src slen m st st' code := by
+  refine ⟨catC07_of_all hdl h, fun hdisj => ?_⟩
+  have hiff := cat_ovrlp_iff hdl h
+  exact ⟨fun hc => by have := hiff.1 hc; omega, fun hh => hiff.2 (by omega)⟩
+
+/-- **strcat_s: ESOVRLP exactly when `src` lies inside the dest string or the cells appended meet the source cells** —
+dest string of length `dl < dmax`, source string of length `n` at any address (identical pointers included) -/
+theorem strcat_s_C07_exact (cfg : Cfg) (dest dmax src dl n : Nat) (destbos : Bos) (st : St)
+    (hall : ∀ a, st.mapped a = true ∧ st.rd a = true)
+    (hd : dest ≠ 0) (hs : src ≠ 0) (hpos : 0 < dmax) (hle : dmax ≤ RSIZE_MAX_STR)
+    (hb : ∀ b, destbos = some b → dmax ≤ b)
+    (hrw : RW st dest dmax)
+    (hdl : dl < dmax) (hdnz : ∀ j, j < dl → st.data (dest + j) ≠ 0) (hdnul : st.data (dest + dl) = 0)
+    (hnz : ∀ j, j < n → st.data (src + j) ≠ 0) (hnul : st.data (src + n) = 0) :
+    ∃ code st', exec (strcat_s cfg dest dmax src destbos) st = .ok (code, st') ∧
+      CatC07 cfg dest dmax dl src n st st' code := by
+  unfold strcat_s
+  rw [strcatG_eq_body _ cfg dest dmax src destbos hd hs hpos hle hb]
+  obtain ⟨code, st', he, hp⟩ := catBody_cases cfg false dest dmax src dl n 0 st hall hpos hrw hdl hdnz hdnul hnz
+    (Or.inl ⟨fun h => absurd h (by decide), hnul⟩)
+  exact ⟨code, st', he, catC07_of_all hdl hp⟩
+
+theorem wcscat_s_C07_exact (cfg : Cfg) (dest dmax src dl n : Nat) (destbos : Bos) (st : St)
+    (hall : ∀ a, st.mapped a = true ∧ st.rd a = true)
+    (hd : dest ≠ 0) (hs : src ≠ 0) (hpos : 0 < dmax) (hle : dmax ≤ RSIZE_MAX_WSTR)
+    (hb : ∀ b, destbos = some b → dmax * SIZEOF_WCHAR_T ≤ b)
+    (hrw : RW st dest dmax)
+    (hdl : dl < dmax) (hdnz : ∀ j, j < dl → st.data (dest + j) ≠ 0) (hdnul : st.data (dest + dl) = 0)
+    (hnz : ∀ j, j < n → st.data (src + j) ≠ 0) (hnul : st.data (src + n) = 0) :
+    ∃ code st', exec (wcscat_s cfg dest dmax src destbos) st = .ok (code, st') ∧
+      CatC07 cfg dest dmax dl src n st st' code := by
+  rw [wcscat_s_eq_body cfg dest dmax src destbos hd hs hpos hle hb]
+  obtain ⟨code, st', he, hp⟩ := catBody_cases cfg false dest dmax src dl n 0 st hall hpos hrw hdl hdnz hdnul hnz
+    (Or.inl ⟨fun h => absurd h (by decide), hnul⟩)
+  exact ⟨code, st', he, catC07_of_all hdl hp⟩
+
+private theorem strncat_s_run (cfg : Cfg) (dest dmax src slen dl m : Nat) (destbos srcbos : Bos) (st : St)
+    (hall : ∀ a, st.mapped a = true ∧ st.rd a = true)
+    (hd : dest ≠ 0) (hs : src ≠ 0) (hpos : 0 < dmax) (hle : dmax ≤ RSIZE_MAX_STR)
+    (hslen : 0 < slen) (hslenle : slen ≤ RSIZE_MAX_STR)
+    (hb : ∀ b, destbos = some b → dmax ≤ b) (hsb : ∀ sb, srcbos = some sb → slen ≤ sb)
+    (hrw : RW st dest dmax)
+    (hdl : dl < dmax) (hdnz : ∀ j, j < dl → st.data (dest + j) ≠ 0) (hdnul : st.data (dest + dl) = 0)
+    (hnz : ∀ j, j < m → st.data (src + j) ≠ 0)
+    (hfin : (m < slen ∧ st.data (src + m) = 0) ∨ slen = m) :
+    ∃ code st', exec (strncat_s cfg dest dmax src slen destbos srcbos) st = .ok (code, st') ∧
+      NcatC07 cfg dest dmax dl src slen m st st' code := by
+  unfold strncat_s
+  rw [strncatG_eq_body _ cfg dest dmax src slen destbos srcbos hd hs hpos hle hslen hslenle hb hsb]
+  obtain ⟨code, st', he, hp⟩ := catBody_cases cfg true dest dmax src dl m slen st hall hpos hrw hdl hdnz hdnul hnz
+    (hfin.elim (fun h => Or.inl ⟨fun _ => h.1, h.2⟩) (fun h => Or.inr ⟨rfl, h⟩))
+  exact ⟨code, st', he, ncatC07_of_all hdl hp⟩
+
+private theorem wcsncat_s_run (cfg : Cfg) (dest dmax src slen dl m : Nat) (destbos srcbos : Bos) (st : St)
+    (hall : ∀ a, st.mapped a = true ∧ st.rd a = true)
+    (hd : dest ≠ 0) (hs : src ≠ 0) (hpos : 0 < dmax) (hle : dmax ≤ RSIZE_MAX_WSTR)
+    (hslen : 0 < slen) (hslenle : slen ≤ RSIZE_MAX_WSTR)
+    (hb : ∀ b, destbos = some b → dmax * SIZEOF_WCHAR_T ≤ b)
+    (hsb : ∀ sb, srcbos = some sb → slen * SIZEOF_WCHAR_T ≤ sb)
+    (hrw : RW st dest dmax)
+    (hdl : dl < dmax) (hdnz : ∀ j, j < dl → st.data (dest + j) ≠ 0) (hdnul : st.data (dest + dl) = 0)
+    (hnz : ∀ j, j < m → st.data (src + j) ≠ 0)
+    (hfin : (m < slen ∧ st.data (src + m) = 0) ∨ slen = m) :
+    ∃ code st', exec (wcsncat_s cfg dest dmax src slen destbos srcbos) st = .ok (code, st') ∧
+      NcatC07 cfg dest dmax dl src slen m st st' code := by
+  rw [wcsncat_s_eq_body cfg dest dmax src slen destbos srcbos hd hs hpos hle hslen hslenle hb hsb]
+  obtain ⟨code, st', he, hp⟩ := catBody_cases cfg true dest dmax src dl m slen st hall hpos hrw hdl hdnz hdnul hnz
+    (hfin.elim (fun h => Or.inl ⟨fun _ => h.1, h.2⟩) (fun h => Or.inr ⟨rfl, h⟩))
+  exact ⟨code, st', he, ncatC07_of_all hdl hp⟩
+
+/-- **strncat_s: ESOVRLP exactly when `src` lies inside the dest string or the `min (m+1) (dmax-dl)` cells appended and
+read meet**, `m = min(slen, strlen src)`, `0 < slen` -/
+theorem strncat_s_C07_exact (cfg : Cfg) (dest dmax src slen dl m : Nat) (destbos srcbos : Bos) (st : St)
+    (hall : ∀ a, st.mapped a = true ∧ st.rd a = true)
+    (hd : dest ≠ 0) (hs : src ≠ 0) (hpos : 0 < dmax) (hle : dmax ≤ RSIZE_MAX_STR)
+    (hslen : 0 < slen) (hslenle : slen ≤ RSIZE_MAX_STR)
+    (hb : ∀ b, destbos = some b → dmax ≤ b) (hsb : ∀ sb, srcbos = some sb → slen ≤ sb)
+    (hrw : RW st dest dmax)
+    (hdl : dl < dmax) (hdnz : ∀ j, j < dl → st.data (dest + j) ≠ 0) (hdnul : st.data (dest + dl) = 0)
+    (hnz : ∀ j, j < m → st.data (src + j) ≠ 0)
+    (hfin : (m < slen ∧ st.data (src + m) = 0) ∨ slen = m) :
+    ∃ code st', exec (strncat_s cfg dest dmax src slen destbos srcbos) st = .ok (code, st') ∧
+      CatC07 cfg dest dmax dl src m st st' code := by
+  obtain ⟨code, st', he, hp⟩ := strncat_s_run cfg dest dmax src slen dl m destbos srcbos st hall hd hs hpos hle hslen
+    hslenle hb hsb hrw hdl hdnz hdnul hnz hfin
+  exact ⟨code, st', he, hp.1⟩
+
+theorem wcsncat_s_C07_exact (cfg : Cfg) (dest dmax src slen dl m : Nat) (destbos srcbos : Bos) (st : St)
+    (hall : ∀ a, st.mapped a = true ∧ st.rd a = true)
+    (hd : dest ≠ 0) (hs : src ≠ 0) (hpos : 0 < dmax) (hle : dmax ≤ RSIZE_MAX_WSTR)
+    (hslen : 0 < slen) (hslenle : slen ≤ RSIZE_MAX_WSTR)
+    (hb : ∀ b, destbos = some b → dmax * SIZEOF_WCHAR_T ≤ b)
+    (hsb : ∀ sb, srcbos = some sb → slen * SIZEOF_WCHAR_T ≤ sb)
+    (hrw : RW st dest dmax)
+    (hdl : dl < dmax) (hdnz : ∀ j, j < dl → st.data (dest + j) ≠ 0) (hdnul : st.data (dest + dl) = 0)
+    (hnz : ∀ j, j < m → st.data (src + j) ≠ 0)
+    (hfin : (m < slen ∧ st.data (src + m) = 0) ∨ slen = m) :
+    ∃ code st', exec (wcsncat_s cfg dest dmax src slen destbos srcbos) st = .ok (code, st') ∧
+      CatC07 cfg dest dmax dl src m st st' code := by
+  obtain ⟨code, st', he, hp⟩ := wcsncat_s_run cfg dest dmax src slen dl m destbos srcbos st hall hd hs hpos hle hslen
+    hslenle hb hsb hrw hdl hdnz hdnul hnz hfin
+  exact ⟨code, st', he, hp.1⟩
+
+/-- **strncat_s on operands that are disjoint as objects**: rejected exactly when `slen = m`, the `slen` source
+characters end exactly at dest and the loop gets that far (`dl + m < dmax`) -/
+theorem strncat_s_C07_disjoint_iff (cfg : Cfg) (dest dmax src slen dl m : Nat) (destbos srcbos : Bos) (st : St)
+    (hall : ∀ a, st.mapped a = true ∧ st.rd a = true)
+    (hd : dest ≠ 0) (hs : src ≠ 0) (hpos : 0 < dmax) (hle : dmax ≤ RSIZE_MAX_STR)
+    (hslen : 0 < slen) (hslenle : slen ≤ RSIZE_MAX_STR)
+    (hb : ∀ b, destbos = some b → dmax ≤ b) (hsb : ∀ sb, srcbos = some sb → slen ≤ sb)
+    (hrw : RW st dest dmax)
+    (hdl : dl < dmax) (hdnz : ∀ j, j < dl → st.data (dest + j) ≠ 0) (hdnul : st.data (dest + dl) = 0)
+    (hnz : ∀ j, j < m → st.data (src + j) ≠ 0)
+    (hfin : (m < slen ∧ st.data (src + m) = 0) ∨ slen = m)
+    (hdisj : dest + dmax ≤ src ∨ (m < slen ∧ src + m + 1 ≤ dest) ∨ (slen = m ∧ src + m ≤ dest)) :
+    ∃ code st', exec (strncat_s cfg dest dmax src slen destbos srcbos) st = .ok (code, st') ∧
+      (code = ESOVRLP ↔ slen = m ∧ src + m = dest ∧ dl + m < dmax) := by
+  obtain ⟨code, st', he, hp⟩ := strncat_s_run cfg dest dmax src slen dl m destbos srcbos st hall hd hs hpos hle hslen
+    hslenle hb hsb hrw hdl hdnz hdnul hnz hfin
+  exact ⟨code, st', he, hp.2 hdisj⟩
+
+theorem wcsncat_s_C07_disjoint_iff (cfg : Cfg) (dest dmax src slen dl m : Nat) (destbos srcbos : Bos) (st : St)
+    (hall : ∀ a, st.mapped a = true ∧ st.rd a = true)
+    (hd : dest ≠ 0) (hs : src ≠ 0) (hpos : 0 < dmax) (hle : dmax ≤ RSIZE_MAX_WSTR)
+    (hslen : 0 < slen) (hslenle : slen ≤ RSIZE_MAX_WSTR)
+    (hb : ∀ b, destbos = some b → dmax * SIZEOF_WCHAR_T ≤ b)
+    (hsb : ∀ sb, srcbos = some sb → slen * SIZEOF_WCHAR_T ≤ sb)
+    (hrw : RW st dest dmax)
+    (hdl : dl < dmax) (hdnz : ∀ j, j < dl → st.data (dest + j) ≠ 0) (hdnul : st.data (dest + dl) = 0)
+    (hnz : ∀ j, j < m → st.data (src + j) ≠ 0)
+    (hfin : (m < slen ∧ st.data (src + m) = 0) ∨ slen = m)
+    (hdisj : dest + dmax ≤ src ∨ (m < slen ∧ src + m + 1 ≤ dest) ∨ (slen = m ∧ src + m ≤ dest)) :
+    ∃ code st', exec (wcsncat_s cfg dest dmax src slen destbos srcbos) st = .ok (code, st') ∧
+      (code = ESOVRLP ↔ slen = m ∧ src + m = dest ∧ dl + m < dmax) := by
+  obtain ⟨code, st', he, hp⟩ := wcsncat_s_run cfg dest dmax src slen dl m destbos srcbos st hall hd hs hpos hle hslen
+    hslenle hb hsb hrw hdl hdnz hdnul hnz hfin
+  exact ⟨code, st', he, hp.2 hdisj⟩
+
+/- FULL statement `strncat_s_C07_disjoint` (false of the model): the hypotheses of `strncat_s_C07_disjoint_iff` ⇒
+`code ≠ ESOVRLP`; fails exactly at `slen = m ∧ src + m = dest ∧ dl + m < dmax`; the same for `wcsncat_s`. -/
+
+theorem strncat_s_C07_disjoint_partial (cfg : Cfg) (dest dmax src slen dl m : Nat) (destbos srcbos : Bos) (st : St)
+    (hall : ∀ a, st.mapped a = true ∧ st.rd a = true)
+    (hd : dest ≠ 0) (hs : src ≠ 0) (hpos : 0 < dmax) (hle : dmax ≤ RSIZE_MAX_STR)
+    (hslen : 0 < slen) (hslenle : slen ≤ RSIZE_MAX_STR)
+    (hb : ∀ b, destbos = some b → dmax ≤ b) (hsb : ∀ sb, srcbos = some sb → slen ≤ sb)
+    (hrw : RW st dest dmax)
+    (hdl : dl < dmax) (hdnz : ∀ j, j < dl → st.data (dest + j) ≠ 0) (hdnul : st.data (dest + dl) = 0)
+    (hnz : ∀ j, j < m → st.data (src + j) ≠ 0)
+    (hfin : (m < slen ∧ st.data (src + m) = 0) ∨ slen = m)
+    (hdisj : dest + dmax ≤ src ∨ (m < slen ∧ src + m + 1 ≤ dest) ∨ (slen = m ∧ src + m ≤ dest))
+    (hex : ¬ (slen = m ∧ src + m = dest ∧ dl + m < dmax)) :
+    ∃ code st', exec (strncat_s cfg dest dmax src slen destbos srcbos) st = .ok (code, st') ∧ code ≠ ESOVRLP := by
+  obtain ⟨code, st', he, hp⟩ := strncat_s_run cfg dest dmax src slen dl m destbos srcbos st hall hd hs hpos hle hslen
+    hslenle hb hsb hrw hdl hdnz hdnul hnz hfin
+  exact ⟨code, st', he, fun hc => hex ((hp.2 hdisj).1 hc)⟩
+
+theorem wcsncat_s_C07_disjoint_partial (cfg : Cfg) (dest dmax src slen dl m : Nat) (destbos srcbos : Bos) (st : St)
+    (hall : ∀ a, st.mapped a = true ∧ st.rd a = true)
+    (hd : dest ≠ 0) (hs : src ≠ 0) (hpos : 0 < dmax) (hle : dmax ≤ RSIZE_MAX_WSTR)
+    (hslen : 0 < slen) (hslenle : slen ≤ RSIZE_MAX_WSTR)
+    (hb : ∀ b, destbos = some b → dmax * SIZEOF_WCHAR_T ≤ b)
+    (hsb : ∀ sb, srcbos = some sb → slen * SIZEOF_WCHAR_T ≤ sb)
+    (hrw : RW st dest dmax)
+    (hdl : dl < dmax) (hdnz : ∀ j, j < dl → st.data (dest + j) ≠ 0) (hdnul : st.data (dest + dl) = 0)
+    (hnz : ∀ j, j < m → st.data (src + j) ≠ 0)
+    (hfin : (m < slen ∧ st.data (src + m) = 0) ∨ slen = m)
+    (hdisj : dest + dmax ≤ src ∨ (m < slen ∧ src + m + 1 ≤ dest) ∨ (slen = m ∧ src + m ≤ dest))
+    (hex : ¬ (slen = m ∧ src + m = dest ∧ dl + m < dmax)) :
+    ∃ code st', exec (wcsncat_s cfg dest dmax src slen destbos srcbos) st = .ok (code, st') ∧ code ≠ ESOVRLP := by
+  obtain ⟨code, st', he, hp⟩ := wcsncat_s_run cfg dest dmax src slen dl m destbos srcbos st hall hd hs hpos hle hslen
+    hslenle hb hsb hrw hdl hdnz hdnul hnz hfin
+  exact ⟨code, st', he, fun hc => hex ((hp.2 hdisj).1 hc)⟩
+
+/-- the excluded point on `endSt`: `strncat_s(a+5, 2, a+4, 1)` with `a+5 = ""` (`dl = 0`), `slen = m = 1`,
+`src + m = dest`, `dl + m < dmax`: ESOVRLP — **listed**: `bounded-copy-src-ends-at-dest` -/
+theorem strncat_s_C07_disjoint_witness :
+    ((1 : Nat) = 1 ∧ (104 : Nat) + 1 ≤ 105) ∧ endSt.data (104 + 0) ≠ 0 ∧ endSt.data (105 + 0) = 0 ∧
+      retCode (exec (strncat_s {} 105 2 104 1 none none) endSt) = some ESOVRLP := by
+  decide
+
+theorem wcsncat_s_C07_disjoint_witness :
+    ((1 : Nat) = 1 ∧ (104 : Nat) + 1 ≤ 105) ∧ endSt.data (104 + 0) ≠ 0 ∧ endSt.data (105 + 0) = 0 ∧
+      retCode (exec (wcsncat_s {} 105 2 104 1 none none) endSt) = some ESOVRLP := by
+  decide
+
+/-! ### dest without a terminator -/
+
+/-- what the four concatenations do when dest holds no NUL in its `dmax` cells -/
+def CatUnterm (cfg : Cfg) (dest dmax src : Nat) (st st' : St) (code : Nat) : Prop :=
+  (code = if dest < src ∧ src < dest + dmax then ESOVRLP else ESUNTERM) ∧
+  st'.data dest = 0 ∧ (cfg.slack = true → ∀ i, i < dmax → st'.data (dest + i) = 0) ∧
+  st'.events = st.events ++ [.handler .str code] ∧ st'.strays = st.strays ∧
+  (∀ a, ¬ (dest ≤ a ∧ a < dest + dmax) → st'.data a = st.data a)
+
+private theorem catUnterm_of {cfg : Cfg} {bounded : Bool} {dest dmax src slen : Nat} {st : St}
+    (hpos : 0 < dmax) (hrw : RW st dest dmax) (hdnz : ∀ j, j < dmax → st.data (dest + j) ≠ 0) :
+    ∃ code st', exec (catBody cfg bounded dest dmax src slen) st = .ok (code, st') ∧
+      CatUnterm cfg dest dmax src st st' code := by
+  obtain ⟨code, st', he, hc, hp⟩ := catBody_unterm cfg bounded dest dmax src slen st hpos hrw hdnz
+  exact ⟨code, st', he, hc, hp.2.2.1, hp.2.2.2.1, hp.2.1, hp.1, hp.2.2.2.2⟩
+
+/-- **strcat_s, dest not terminated within `dmax`** (any src, any contents elsewhere; only dest needs to be mapped):
+ESOVRLP exactly when the scan runs into `src`, else ESUNTERM; one handler call, dest cleared -/
+theorem strcat_s_C07_unterm (cfg : Cfg) (dest dmax src : Nat) (destbos : Bos) (st : St)
+    (hd : dest ≠ 0) (hs : src ≠ 0) (hpos : 0 < dmax) (hle : dmax ≤ RSIZE_MAX_STR)
+    (hb : ∀ b, destbos = some b → dmax ≤ b)
+    (hrw : RW st dest dmax) (hdnz : ∀ j, j < dmax → st.data (dest + j) ≠ 0) :
+    ∃ code st', exec (strcat_s cfg dest dmax src destbos) st = .ok (code, st') ∧
+      CatUnterm cfg dest dmax src st st' code := by
+  unfold strcat_s
+  rw [strcatG_eq_body _ cfg dest dmax src destbos hd hs hpos hle hb]
+  exact catUnterm_of hpos hrw hdnz
+
+theorem wcscat_s_C07_unterm (cfg : Cfg) (dest dmax src : Nat) (destbos : Bos) (st : St)
+    (hd : dest ≠ 0) (hs : src ≠ 0) (hpos : 0 < dmax) (hle : dmax ≤ RSIZE_MAX_WSTR)
+    (hb : ∀ b, destbos = some b → dmax * SIZEOF_WCHAR_T ≤ b)
+    (hrw : RW st dest dmax) (hdnz : ∀ j, j < dmax → st.data (dest + j) ≠ 0) :
+    ∃ code st', exec (wcscat_s cfg dest dmax src destbos) st = .ok (code, st') ∧
+      CatUnterm cfg dest dmax src st st' code := by
+  rw [wcscat_s_eq_body cfg dest dmax src destbos hd hs hpos hle hb]
+  exact catUnterm_of hpos hrw hdnz
+
+theorem strncat_s_C07_unterm (cfg : Cfg) (dest dmax src slen : Nat) (destbos srcbos : Bos) (st : St)
+    (hd : dest ≠ 0) (hs : src ≠ 0) (hpos : 0 < dmax) (hle : dmax ≤ RSIZE_MAX_STR)
+    (hslen : 0 < slen) (hslenle : slen ≤ RSIZE_MAX_STR)
+    (hb : ∀ b, destbos = some b → dmax ≤ b) (hsb : ∀ sb, srcbos = some sb → slen ≤ sb)
+    (hrw : RW st dest dmax) (hdnz : ∀ j, j < dmax → st.data (dest + j) ≠ 0) :
+    ∃ code st', exec (strncat_s cfg dest dmax src slen destbos srcbos) st = .ok (code, st') ∧
+      CatUnterm cfg dest dmax src st st' code := by
+  unfold strncat_s
+  rw [strncatG_eq_body _ cfg dest dmax src slen destbos srcbos hd hs hpos hle hslen hslenle hb hsb]
+  exact catUnterm_of hpos hrw hdnz
+
+theorem wcsncat_s_C07_unterm (cfg : Cfg) (dest dmax src slen : Nat) (destbos srcbos : Bos) (st : St)
+    (hd : dest ≠ 0) (hs : src ≠ 0) (hpos : 0 < dmax) (hle : dmax ≤ RSIZE_MAX_WSTR)
+    (hslen : 0 < slen) (hslenle : slen ≤ RSIZE_MAX_WSTR)
+    (hb : ∀ b, destbos = some b → dmax * SIZEOF_WCHAR_T ≤ b)
+    (hsb : ∀ sb, srcbos = some sb → slen * SIZEOF_WCHAR_T ≤ sb)
+    (hrw : RW st dest dmax) (hdnz : ∀ j, j < dmax → st.data (dest + j) ≠ 0) :
+    ∃ code st', exec (wcsncat_s cfg dest dmax src slen destbos srcbos) st = .ok (code, st') ∧
+      CatUnterm cfg dest dmax src st st' code := by
+  rw [wcsncat_s_eq_body cfg dest dmax src slen destbos srcbos hd hs hpos hle hslen hslenle hb hsb]
+  exact catUnterm_of hpos hrw hdnz
+
+/-- dest = "xy" (no NUL) in the 2 writable cells at 100, src = "a" at 101 / at 200 -/
+def untSt : St :=
+  { data := fun a => if a = 100 then 120 else if a = 101 then 121 else if a = 200 then 97 else 0
+    mapped := fun _ => true, rd := fun _ => true
+    wr := fun a => decide (100 ≤ a ∧ a < 102) }
+
+/-- non-vacuity of the `_unterm` theorems, and both outcomes as test instances -/
+example : RW untSt 100 2 ∧ (∀ j, j < 2 → untSt.data (100 + j) ≠ 0) ∧
+    retCode (exec (strcat_s {} 100 2 101 none) untSt) = some ESOVRLP ∧
+    retCode (exec (strcat_s {} 100 2 200 none) untSt) = some ESUNTERM := by
+  refine ⟨fun i hi => ⟨rfl, ?_, rfl⟩, ?_, by decide, by decide⟩
+  · simp [untSt]; omega
+  · intro j hj
+    have : j = 0 ∨ j = 1 := by omega
+    rcases this with h | h <;> subst h <;> decide
+
+/-- non-vacuity of the concatenation `_exact` / `_partial` theorems: `endSt` with dest = `a + 6` (empty string, 1 cell),
+src = `a + 4` = "x", `slen = m = 1`, `src + m < dest` -/
+example : (∀ a, endSt.mapped a = true ∧ endSt.rd a = true) ∧ RW endSt 106 1 ∧ endSt.data (106 + 0) = 0 ∧
+    (∀ j, j < 1 → endSt.data (104 + j) ≠ 0) ∧ ((1 : Nat) = 1 ∧ (104 : Nat) + 1 ≤ 106) ∧
+    ¬ ((1 : Nat) = 1 ∧ (104 : Nat) + 1 = 106 ∧ 0 + 1 < 1) := by
+  refine ⟨fun _ => ⟨rfl, rfl⟩, fun i hi => ⟨rfl, ?_, rfl⟩, by decide, ?_, by decide, by decide⟩
+  · simp [endSt]; omega
+  · intro j hj
+    have : j = 0 := by omega
+    subst this; decide
 
 end SafeC.Props.C07
